@@ -93,6 +93,8 @@ theorem W_send_tasks (v : GV) (h : Heap) (w : PW) :
     poolWorld.call "chan:send" [.ref "chan" 0, v] h w = some ([], h, emit w (.send .tasks v)) := rfl
 theorem W_close_tasks (h : Heap) (w : PW) : poolWorld.call "close" [.ref "chan" 0] h w = some ([], h, emit w (.closeCh .tasks)) := rfl
 theorem W_close_done (h : Heap) (w : PW) : poolWorld.call "close" [.ref "chan" 1] h w = some ([], h, emit w (.closeCh .done)) := rfl
+/-- `poolWorld` does not set `callVar`: a call through a local function variable (`task()`) is answered by name -/
+theorem W_callVar (fn : String) (fv : GV) : poolWorld.callVar fn fv = poolWorld.call fn := rfl
 theorem W_task (h : Heap) (w : PW) :
     poolWorld.call "task" [] h w = (match w.cur with | some f => some ([], h, emit w (.run f)) | none => none) := rfl
 theorem W_recvd (h : Heap) (w : PW) :
@@ -112,7 +114,7 @@ theorem W_select (w : PW) :
 macro "poolsimp" " [" ts:Lean.Parser.Tactic.simpLemma,* "]" : tactic =>
   `(tactic| gosimp [PoolW.run, PoolW.runWithDefers, PoolW.view, PoolW.exitDefers, callFunc, expr_sel, expr_funcLit, expr_not,
       stmt_expr_mcall_nil, stmt_expr_mcall_int, stmt_expr_call, stmt_defer, stmt_send,
-      W_tasks, W_done, W_wg, W_Add, W_Wait, W_deferDone, W_send_tasks, W_close_tasks, W_close_done, W_task, W_recvd, W_select,
+      W_tasks, W_done, W_wg, W_Add, W_Wait, W_deferDone, W_send_tasks, W_close_tasks, W_close_done, W_callVar, W_task, W_recvd, W_select,
       emit, poolH, $ts,*])
 
 /-- every depth `≥ K` is `f + K` for some `f` -/
